@@ -99,19 +99,59 @@ def dev(a, b):
     return f"{np.abs(a - b).max():.3e}"
 
 
+def _act_np(name, z, shape):
+    """numpy twin of the harness activations: value and Jacobian d act / d z"""
+    n = z.size
+    if name == "id":
+        return z, np.eye(n)
+    if name == "exp":
+        return np.exp(z), np.diag(np.exp(z))
+    if name == "tanh":
+        return np.tanh(z), np.diag(1.0 - np.tanh(z) ** 2)
+    if name == "sq1":
+        return 1.0 + z * z, np.diag(2.0 * z)
+    if name == "spd":
+        d = shape[-1]
+        W = z.reshape(-1, d, d)
+        Y = np.einsum("bij,bkj->bik", W, W) + np.eye(d)
+        Jm = np.zeros((n, n))
+        for b in range(W.shape[0]):
+            o = b * d * d
+            for i in range(d):
+                for k in range(d):
+                    for j in range(d):
+                        # Y_ik = sum_j W_ij W_kj
+                        Jm[o + i * d + k, o + i * d + j] += W[b, k, j]
+                        Jm[o + i * d + k, o + k * d + j] += W[b, i, j]
+        return Y.ravel(), Jm
+    raise ValueError(name)
+
+
 def term_y_and_J(case):
-    """per term: forward value y_k (real coordinates) and dense Jacobian J_k of the HARNESS forward model"""
-    jax = I.jx()
-    out = []
+    """per term: forward value y_k (real coordinates) and dense Jacobian J_k of the HARNESS forward model
+    (numpy, written independently of the jax closure that is handed to the library)"""
     if case.get("latent") is None:
-        t = case["terms"][0]
-        y = np.asarray(t["y"], dtype=float)
-        return [(y, None)]
-    x = jax.numpy.asarray(np.asarray(case["x"], dtype=float))
+        return [(np.asarray(case["terms"][0]["y"], dtype=float), None)]
+    x = np.asarray(case["x"], dtype=float)
+    out = []
     for t in case["terms"]:
-        y = np.asarray(I.forward_flat(t, x))
-        J = np.asarray(jax.jacfwd(lambda v, t=t: I.forward_flat(t, v))(x))
-        out.append((y, J))
+        m = t["model"]
+        A = np.asarray(m["A"], dtype=float).reshape(len(m["b"]), -1)
+        z = A @ x + np.asarray(m["b"], dtype=float)
+        ys, Js, off = [], [], 0
+        for l, a in zip(I.spec_leaves(I.primal_spec(t)), m["acts"]):
+            n = I.leaf_sizes([l])[0]
+            if l.get("cplx"):
+                h = n // 2
+                v, Ja = _act_np(a, z[off:off + h], l["shape"])
+                ys += [v, z[off + h:off + n]]
+                Js += [Ja @ A[off:off + h], A[off + h:off + n]]
+            else:
+                v, Ja = _act_np(a, z[off:off + n], l["shape"])
+                ys.append(v)
+                Js.append(Ja @ A[off:off + n])
+            off += n
+        out.append((np.concatenate(ys), np.vstack(Js)))
     return out
 
 
@@ -132,9 +172,9 @@ def _expand(term, vals):
     return FI._expand_cplx(term, FI._bcast(vals, n))
 
 
-def driver_line(case):
+def driver_line(case, yj=None):
     """the JSON object for Driver/C12.lean"""
-    yj = term_y_and_J(case)
+    yj = term_y_and_J(case) if yj is None else yj
     terms = []
     for t, (y, J) in zip(case["terms"], yj):
         k = t["kind"]
@@ -285,28 +325,36 @@ def commuting_directions(term, y):
 # ---------------------------------------------------------------------------------------------------
 # the property, on the real code only
 # ---------------------------------------------------------------------------------------------------
+def term_tag(t):
+    """which implementation, with the qualifiers that matter for the listed findings"""
+    k = t["kind"]
+    if k == "vcgauss":
+        return "vcgauss[complex]" if any(l.get("cplx") for l in t["tree"]["leaves"]) else "vcgauss[real]"
+    if k == "ndvc":
+        return "ndvc[d>=2]" if t["d"] >= 2 else "ndvc[d=1]"
+    if k == "categorical":
+        return "categorical[batched]" if sum(FI._leaf_elems(t)) > 1 else "categorical[single]"
+    return k
+
+
 def _sig(case, check, **kw):
-    kinds = sorted({t["kind"] for t in case["terms"]})
-    s = dict(check=check, kinds="+".join(kinds),
-             composed=case.get("latent") is not None, nterms=len(case["terms"]),
-             frozen=bool(case.get("freeze")))
+    s = dict(check=check, culprit="+".join(sorted({term_tag(t) for t in case["terms"]})),
+             composed=case.get("latent") is not None)
     s.update(kw)
     return s
 
 
-def oracle_all(case, o=None):
-    """list of (what, signature) for every part of the property that fails on the real code"""
+def _checks(case, o):
+    """list of (what, signature) for every part of the property that fails on the real object of THIS case"""
     fails = []
-    o = impl(case) if o is None else o
     if "error" in o:
         return [(f"real code raised {o['error']}: {o.get('msg', '')}", _sig(case, "raises", error=o["error"]))]
     M, L, R = o["M"], o["L"], o["R"]
     kinds = {t["kind"] for t in case["terms"]}
-    cplx = any(l.get("cplx") for t in case["terms"] for l in t["tree"]["leaves"])
     # 1. M = L R
     if L.shape[1] != R.shape[0] or not close(M, L @ R):
-        fails.append((f"metric != left_sqrt_metric o right_sqrt_metric (max dev {dev(M, L @ R) if L.shape[1] == R.shape[0] else 'shape'})",
-                      _sig(case, "M=LR")))
+        fails.append(("metric != left_sqrt_metric o right_sqrt_metric (max dev "
+                      f"{dev(M, L @ R) if L.shape[1] == R.shape[0] else 'shape'})", _sig(case, "M=LR")))
     # 1b. M = L L^H (the factorisation itself, independent of how R is obtained)
     if not close(M, L @ L.T):
         fails.append((f"metric != L L^H (max dev {dev(M, L @ L.T)})", _sig(case, "M=LLh")))
@@ -320,6 +368,7 @@ def oracle_all(case, o=None):
     if has_T(case):
         T = o["T"]
         if kinds <= set(EXACT_T):
+            o["_gram"] = T.T @ T
             if not close(L, T.T):
                 fails.append((f"left_sqrt_metric is not the pull-back (Jac transformation)^H ({dev(L, T.T)})",
                               _sig(case, "pullback")))
@@ -328,8 +377,10 @@ def oracle_all(case, o=None):
                 Gm = expected_gram(case, yj, o["_bases"])
             except Exception as e:
                 Gm = None
-                fails.append((f"transformation raised {type(e).__name__}", _sig(case, "raises", error=type(e).__name__)))
+                fails.append((f"transformation raised {type(e).__name__}: {str(e)[:120]}",
+                              _sig(case, "raises", error=type(e).__name__)))
             if Gm is not None:
+                o["_gram"] = Gm
                 nd_big = [t for t in case["terms"] if t["kind"] == "ndvc" and t["d"] >= 2]
                 if case.get("latent") is None and nd_big:
                     # exact in expectation only along directions commuting with the matrix parameter
@@ -339,12 +390,11 @@ def oracle_all(case, o=None):
                                       f"({dev(D.T @ Gm @ D, D.T @ M @ D)})", _sig(case, "expected_pullback", part="commuting")))
                     P = sym_projector(case["terms"][0])
                     if not close(P @ Gm @ P, P @ M @ P):
-                        fails.append((f"E_d[(Jac T)^H Jac T] != metric on symmetric matrix directions ({dev(P @ Gm @ P, P @ M @ P)})",
-                                      _sig(case, "expected_pullback", part="noncommuting", d_ge_2=True)))
-                elif not nd_big:
-                    if not close(Gm, M):
-                        fails.append((f"E_d[(Jac T)^H Jac T] != metric ({dev(Gm, M)})",
-                                      _sig(case, "expected_pullback", cplx=cplx)))
+                        fails.append(("E_d[(Jac T)^H Jac T] != metric on non-commuting symmetric matrix directions "
+                                      f"({dev(P @ Gm @ P, P @ M @ P)})", _sig(case, "expected_pullback", part="noncommuting")))
+                elif not close(Gm, M):
+                    fails.append((f"E_d[(Jac T)^H Jac T] != metric ({dev(Gm, M)})",
+                                  _sig(case, "expected_pullback", part="all")))
     # 4. Fisher information of the documented distribution (independent closed forms)
     Fm = None
     for t, (y, J) in zip(case["terms"], yj):
@@ -357,19 +407,57 @@ def oracle_all(case, o=None):
     Fm = Fm[np.ix_(liquid, liquid)]
     Mc = M
     if case.get("latent") is None and case["terms"][0]["kind"] == "ndvc":
+        # the distribution lives on symmetric matrices: compare on (mean, symmetric) directions;
+        # composed cases: the harness forward models only produce symmetric matrices
         P = sym_projector(case["terms"][0])
         Mc = P @ M @ P
-    elif "ndvc" in kinds:
-        # composed: the harness forward model produces symmetric matrices, J maps into the symmetric subspace
-        Mc = M
     if not close(Mc, Fm):
         fails.append((f"metric != Fisher information of the documented distribution ({dev(Mc, Fm)})", _sig(case, "fisher")))
     return fails
 
 
+def oracle_all(case, o=None):
+    """list of (case', what, signature): every failing part of the property; failures of a composed case are
+    localised — each term is re-examined on its own (no forward model, at the forward value) and, when it fails the
+    same check there, the small self-contained case is reported instead of the composition"""
+    o = impl(case) if o is None else o
+    fails = _checks(case, o)
+    if not fails or case.get("latent") is None:
+        return [(case, w, s) for w, s in fails]
+    out, explained, grams = [], set(), []
+    for i in range(len(case["terms"])):
+        try:
+            pc = plainify(case, i)
+            po = impl(pc)
+            sub = _checks(pc, po)
+            grams.append(po.get("_gram"))
+        except Exception:
+            grams.append(None)
+            continue
+        for w, s in sub:
+            if any(s["check"] == s0["check"] for _, s0 in fails):
+                out.append((pc, w, s))
+                explained.add(s["check"])
+    for w, s in fails:
+        if s["check"] not in explained:
+            out.append((case, w, dict(s, culprit="composition:" + s["culprit"])))
+    if "expected_pullback" in explained and o.get("_gram") is not None and all(g is not None for g in grams):
+        # a term on its own explains the failure (possibly a listed finding): the composition must still compose the
+        # terms' transformations correctly -- E[Gram] of the whole = sum_k J_k^T E[Gram_k] J_k on the liquid block
+        yj = term_y_and_J(case)
+        liquid = liquid_of(case)
+        pred = sum(J.T @ g @ J for g, (_, J) in zip(grams, yj))[np.ix_(liquid, liquid)]
+        if not close(o["_gram"], pred):
+            out.append((case, f"transformation of the composition is not the composition of the terms' transformations "
+                              f"({dev(o['_gram'], pred)})", _sig(case, "pullback_composition")))
+    return out
+
+
 def oracle(case):
     """first failing part that is not a listed known finding (so that a replay of a new defect stays a violation)"""
-    fails = oracle_all(case)
+    fails = [(w, s) for c, w, s in oracle_all(case) if c is case]
+    if not fails:
+        fails = [(w, s) for c, w, s in oracle_all(case)]
     if not fails:
         return None
     try:
@@ -415,6 +503,10 @@ def gen_composed(rng, kinds=None, nterms=None, freeze=None):
         leaves = I.spec_leaves(ps)
         n_first = len(ps["first"]["leaves"]) if ps["wrap"] == "pair" else len(leaves)
         t["model"] = G.gen_model(rng, t, nlat, leaves, n_first)
+        if nterms > 1 and lat["wrap"] == "arr":
+            # LikelihoodSum joins the summands' domains with `|` (dict union): forward models that declare an
+            # array domain (jft.Model) are rejected by its constructor -- not an input the property speaks about
+            t["model"].pop("lazy", None)
         terms.append(t)
     case = dict(op="lh", terms=terms, latent=lat, x=G.dys(rng, nlat, -1, 1))
     if freeze:
@@ -497,45 +589,80 @@ def compare_case(ctx, case, out_impl, out_model):
     return ok
 
 
+def _work(case):
+    """everything that needs JAX for one case (runs in a forked worker): driver line, dense matrices, oracle"""
+    import warnings
+    warnings.filterwarnings("ignore")
+    res = dict(line=None, line_err=None)
+    if model_supported(case):
+        try:
+            res["line"] = driver_line(case, term_y_and_J(case))
+        except Exception as e:
+            res["line_err"] = f"{type(e).__name__}: {e}"
+    o = impl(case)
+    try:
+        res["fails"] = oracle_all(case, o)
+    except Exception as e:   # harness bug: surface it, do not hide it as a pass
+        res["fails"] = []
+        res["oracle_err"] = f"{type(e).__name__}: {str(e)[:300]}"
+    res["impl"] = {k: v for k, v in o.items() if not k.startswith("_")}
+    return res
+
+
+def _selftest(_):
+    return FI.selftest(I.jx())
+
+
+def _silence():
+    import logging
+    import warnings
+    warnings.filterwarnings("ignore")
+    logging.getLogger("NIFTy").setLevel(logging.ERROR)
+    logging.getLogger("nifty").setLevel(logging.ERROR)
+
+
 def run(ctx):
+    import multiprocessing as mp
+    import os
     rng = ctx.rng
+    cases = load_corpus()
+    ctx.extra["corpus_cases"] = len(cases)
+    # every implementation first (targeted stream), then free generation, then compositions
+    for k in G.KINDS:
+        for _ in range(ctx.n(3, 30)):
+            cases.append(gen_plain(rng, k))
+    for _ in range(ctx.n(20, 300)):
+        cases.append(gen_plain(rng))
+    for _ in range(ctx.n(30, 400)):
+        cases.append(gen_composed(rng))
+    # JAX work in forked workers (forked before this process imports jax)
+    nw = int(os.environ.get("C12_WORKERS", "4"))
+    with mp.get_context("fork").Pool(nw, initializer=_silence) as pool:
+        st = pool.apply(_selftest, (0,))
+        results = pool.map(_work, cases, chunksize=4)
     # self-test of the independent Fisher closed forms (a test, labelled as such)
-    st = FI.selftest(I.jx())
     bad = [(n, v) for n, v in st if not v < 1e-7]
     ctx.extra["fisher_selftest"] = {n: float(v) for n, v in st}
     if bad:
         ctx.broke("correspondence", "harness Fisher closed forms fail their own expected-Hessian self-test", str(bad))
-    cases = load_corpus()
-    ncorp = len(cases)
-    n_plain, n_comp = ctx.n(70, 700), ctx.n(60, 600)
-    # every implementation, targeted streams first (batched categorical, complex data, pytrees), then free generation
-    for k in G.KINDS:
-        for _ in range(ctx.n(4, 30)):
-            cases.append(gen_plain(rng, k))
-    for _ in range(n_plain - 4 * len(G.KINDS) if ctx.quick else n_plain):
-        cases.append(gen_plain(rng))
-    for _ in range(n_comp):
-        cases.append(gen_composed(rng))
-    ctx.extra["corpus_cases"] = ncorp
     lines, idx = [], []
-    for i, c in enumerate(cases):
-        if model_supported(c):
-            try:
-                lines.append(driver_line(c))
-                idx.append(i)
-            except Exception as e:
-                ctx.broke("correspondence", "driver_line", f"{type(e).__name__}: {e}")
+    for i, r in enumerate(results):
+        if r["line"] is not None:
+            lines.append(r["line"])
+            idx.append(i)
+        elif r["line_err"]:
+            ctx.broke("correspondence", "driver_line", r["line_err"])
+        if r.get("oracle_err"):
+            ctx.broke("correspondence", "oracle crashed", r["oracle_err"])
     outs = ctx.model(DRIVER, lines)
     model_out = {i: o for i, o in zip(idx, outs)}
-    for i, c in enumerate(cases):
+    for i, (c, r) in enumerate(zip(cases, results)):
         stat_case(ctx, c)
-        o = impl(c)
-        fails = oracle_all(c, o)
-        for w, s in fails:
-            ctx.counterexample(c, w, s)
+        for cc, w, s in r["fails"]:
+            ctx.counterexample(cc, w, s)
             ctx.stat("oracle-fail:" + s["check"])
         if i in model_out:
-            compare_case(ctx, c, o, model_out[i])
+            compare_case(ctx, c, r["impl"], model_out[i])
         else:
             ctx.case(c, nontrivial(c))
             ctx.stat("oracle-only(d=3)")
@@ -547,10 +674,10 @@ def search(ctx):
     for _ in range(ctx.n(40, 200)):
         for k in ("categorical", "vcgauss", "ndvc", "gaussian"):
             c = gen_plain(rng, k)
-            for w, s in oracle_all(c):
-                ctx.counterexample(c, w, s)
+            for cc, w, s in oracle_all(c):
+                ctx.counterexample(cc, w, s)
         c = gen_composed(rng)
-        for w, s in oracle_all(c):
-            ctx.counterexample(c, w, s)
+        for cc, w, s in oracle_all(c):
+            ctx.counterexample(cc, w, s)
         if ctx.counterexamples:
             return
